@@ -36,6 +36,7 @@ type Run struct {
 	distinct   map[string]struct{}
 	Samples    []interface{}
 	keySamples []map[string]string
+	entered    string // stream journalled by Enter
 	sampled    map[string]int
 	Dist       map[string]int
 	Streams    map[string]int
@@ -187,10 +188,29 @@ func (r *Run) InFlight(stream string, c interface{}, why string) {
 }
 
 func (r *Run) Landed() {
+	if r.entered != "" {
+		r.Enter(r.entered) // back to the journal entry of the stream as a whole
+		return
+	}
 	os.Remove(filepath.Join(verifDir(), "replays", r.Prop+"-inflight.json"))
 }
 
+// Enter records that a stream is running from now on: if the process dies before the next InFlight / Enter /
+// Finish (a panic in a goroutine of the library), `check` reports the crash with the stream's name, the seed
+// and the panic's stack as replay. Streams that journal single cases (InFlight) refine this entry.
+func (r *Run) Enter(stream string) {
+	r.entered = stream
+	rep := Replay{Property: r.Prop, Stream: stream, Seed: r.Seed, Tier: r.Tier,
+		Case: map[string]interface{}{"stream_running": stream, "note": "the cases of a stream are a function of the seed: rerun the stream to reproduce"},
+		Impl: "the harness process died while this stream was running", PropertyFails: true, Why: "the library crashed the process (see the stack in output_tail)"}
+	b, _ := json.MarshalIndent(rep, "", " ")
+	dir := filepath.Join(verifDir(), "replays")
+	os.MkdirAll(dir, 0o755)
+	os.WriteFile(filepath.Join(dir, r.Prop+"-inflight.json"), b, 0o644)
+}
+
 func (r *Run) Finish(out string) int {
+	r.entered = ""
 	r.Landed()
 	r.Mdl.Close()
 	ids := []string{}
